@@ -148,7 +148,7 @@ def groupGo (H : List HashTok → Nat) (attr : List Char) :
     | none => .missingAttr
     | some .none => groupGo H attr rest g
     | some x =>
-      match x.asKey with
+      match x.asKeyK with
       | none => .badKey
       | some k => groupGo H attr rest (pushGroup k v g)
 
@@ -184,7 +184,7 @@ def reverse : Value → Option Value
 /-! ### keys / values / pairs -/
 
 /-- `map_entries`: `entries.sort_by_key(|e| e.0)`. -/
-def mapEntries (m : List (Key × Value)) : List (Key × Value) := sortEntries m
+def mapEntries (m : List (Key × Value)) : List (Key × Value) := sortEntriesK m
 
 def keys (m : List (Key × Value)) : List Value := (mapEntries m).map fun e => e.1.asValue
 def values (m : List (Key × Value)) : List Value := (mapEntries m).map fun e => e.2
